@@ -3,6 +3,7 @@ Driver for the blockstore adapter engine (C15).
 -/
 import Driver.Common
 import Sth.Model.Adapter
+import Sth.Model.Machine
 
 namespace Driver.BS
 open Sth Driver
@@ -11,6 +12,7 @@ structure St where
   s : Option BS := none
   spec : List (Bytes × Bytes) := []      -- digest ↦ block bytes (first Put wins: the store is immutable)
   hashOnRead : Bool := false
+  cfg : Option Cfg := none
 deriving Repr
 
 def showOut : BsOut → String
@@ -38,8 +40,19 @@ def step (st : St) (l : Line) : St × List Msg :=
   | "bsopen" =>
     let c : Cfg := { kind := .mh, bits := l.args.nat "bits", ifs := l.args.nat "ifs", pfs := l.args.nat "pfs", imm := true }
     match openStore c {} with
-    | (d, .ok m) => ({ st with s := some { m := m, d := d } }, cmp "bsopen" "ok" l.res)
+    | (d, .ok m) => ({ st with s := some { m := m, d := d }, cfg := some c }, cmp "bsopen" "ok" l.res)
     | (_, .error _) => (st, cmp "bsopen" "err:other" l.res)
+  | "bsreopen" =>
+    -- Close (the store flushes; the flush order does not show in any output of the adapter) and a new handle on the same
+    -- directory, with or without the bucket snapshot; hash-on-read is a property of the handle and starts disabled again.
+    -- What the contract says afterwards is what it said before: `spec` is untouched.
+    match st.s, st.cfg with
+    | some s, some c =>
+      match Sth.stepS ⟨c, s.m, s.d⟩ (.reopen [] (l.args.get "snap" ≠ "0")) with
+      | (s', .gc) => ({ st with s := some { m := s'.m, d := s'.d }, hashOnRead := false }, cmp "bsreopen" "ok" l.res ++
+          [Msg.flag "reopen"] ++ (if l.res = "ok" then [] else [Msg.prop s!"the blockstore could not be reopened: {l.res}"]))
+      | _ => (st, cmp "bsreopen" "err:other" l.res ++ [Msg.prop s!"the blockstore could not be reopened (model): {l.res}"])
+    | _, _ => (st, [Msg.corr "blockstore not open in the model"])
   | _ =>
   match st.s with
   | none => (st, [Msg.corr "blockstore not open in the model"])
